@@ -39,6 +39,86 @@ pub fn op_enc(rec: &mut Rec, bs: &[u8]) {
     }
 }
 
+
+/// The header rules of C15 written out from the property text, independently of the implementation
+/// (only `str::trim` — "whitespace" — and UTF-8 validation come from std). `None` = the block is rejected.
+pub struct RuleState {
+    pub cl: u32,
+    pub ex: bool,
+    pub ch: bool,
+    pub ac_json: bool,
+    pub cu: std::collections::BTreeMap<Vec<u8>, Vec<u8>>,
+}
+
+/// "unsigned 32-bit decimal": an optional `+`, at least one ASCII digit, value at most 2^32 - 1
+fn u32_decimal(s: &str) -> Option<u32> {
+    let d = s.strip_prefix('+').unwrap_or(s);
+    if d.is_empty() || !d.bytes().all(|b| b.is_ascii_digit()) {
+        return None;
+    }
+    let mut v: u64 = 0;
+    for b in d.bytes() {
+        v = v * 10 + (b - b'0') as u64;
+        if v > u32::MAX as u64 {
+            return None;
+        }
+    }
+    Some(v as u32)
+}
+
+pub fn rule_block(lines: &[Vec<u8>]) -> Option<RuleState> {
+    let mut st = RuleState { cl: 0, ex: false, ch: false, ac_json: false, cu: Default::default() };
+    for l in lines {
+        if l.is_empty() {
+            break; // the block ends at its first empty line
+        }
+        let text = std::str::from_utf8(l).ok()?; // non-UTF-8 bytes reject
+        let colon = text.find(':')?; // a line without a colon rejects
+        let (name, value) = (&text[..colon], &text[colon + 1..]);
+        let key = name.trim().to_ascii_lowercase();
+        let v = value.trim();
+        match key.as_str() {
+            "content-length" => st.cl = u32_decimal(v)?,
+            "accept-encoding" => {
+                if v.is_empty() {
+                    return None;
+                }
+                for item in v.split(',') {
+                    let t = item.trim();
+                    if t == "identity;q=0" || (t == "*;q=0" && !v.contains("identity")) {
+                        return None;
+                    }
+                }
+            }
+            "expect" => {
+                if v == "100-continue" {
+                    st.ex = true;
+                }
+            }
+            "transfer-encoding" => {
+                if v == "chunked" {
+                    st.ch = true;
+                }
+            }
+            "accept" => match v {
+                "text/plain" => st.ac_json = false,
+                "application/json" => st.ac_json = true,
+                _ => {}
+            },
+            "content-type" | "server" => {}
+            _ => {
+                st.cu.insert(name.trim().as_bytes().to_vec(), v.as_bytes().to_vec());
+            }
+        }
+    }
+    Some(st)
+}
+
+pub fn rule_show(st: &RuleState) -> String {
+    let cu: Vec<String> = st.cu.iter().map(|(k, v)| format!("{}:{}", hx(k), hx(v))).collect();
+    format!("cl={} ex={} ch={} ac={} cu=[{}]", st.cl, b01(st.ex), b01(st.ch), if st.ac_json { "json" } else { "plain" }, cu.join(","))
+}
+
 fn is_unsupported_value(e: &RequestError) -> bool {
     matches!(e, RequestError::HeaderError(HttpHeaderError::UnsupportedValue(_, _)))
 }
@@ -125,6 +205,24 @@ pub fn block_case(rec: &mut Rec, rng: &mut Rng, lines: &[Vec<u8>], descr: &str) 
             if clean && got != expected {
                 rec.oracle_fail("C15", &format!("block result {:?} differs from line-by-line result {:?}", got, expected), &log);
             }
+            // the rules of the property evaluated independently of the implementation
+            if clean {
+                let rule = if std::str::from_utf8(&block).is_err() { None } else { rule_block(lines) };
+                match (&got, &rule) {
+                    (Ok(t), Some(st)) => {
+                        if *t != rule_show(st) {
+                            rec.oracle_fail("C15", &format!("the block was parsed to {} but the header rules give {}", t, rule_show(st)), &log);
+                        }
+                    }
+                    (Err(e), Some(st)) => {
+                        rec.oracle_fail("C15", &format!("the block was rejected ({}) but the header rules accept it as {}", e, rule_show(st)), &log);
+                    }
+                    (Ok(t), None) => {
+                        rec.oracle_fail("C15", &format!("the block was accepted as {} but the header rules reject it", t), &log);
+                    }
+                    (Err(_), None) => {}
+                }
+            }
             match got {
                 Ok(t) => rec.op(&op, &format!("ok {}", t)),
                 Err(t) => {
@@ -192,7 +290,7 @@ pub fn run(rec: &mut Rec, rng: &mut Rng, thorough: bool) {
     // exhaustive: every recognised name x its values, plain and padded, as single-line blocks
     for (i, name) in gen::REC_NAMES.iter().enumerate() {
         for v in gen::values_for(i) {
-            for pad in ["", " ", "\u{a0}"] {
+            for pad in ["", " ", "\u{a0}", "\u{0}", "\u{b}", "\u{1f}"] {
                 let line = format!("{}{}{}:{}{}{}", pad, name, pad, pad, v, pad).into_bytes();
                 block_case(rec, rng, &[line], "single");
                 let line = format!("{}:{}", name.to_ascii_uppercase(), v).into_bytes();
